@@ -71,6 +71,14 @@ CHECKS = {
             "genuinely complex Mps and purified MpDm states in any gauge.",
             "coeff is a separate prefactor (library convention); prod(d) <= 1024",
             "DESIGN.md section 3 / C07"),
+    "C08": ("exploration",
+            "reference-model monitor: every energy of every micro-iteration and sweep (recorded through wrappers on "
+            "single_sweep / eigh_direct / eigh_iterative / davidson1) against exact diagonalisation in the sector; returned "
+            "states checked for norm, sector, labels and energy consistency; Davidson kernel driven directly",
+            "Generated Hamiltonians (electron-phonon, XXZ, generic Hermitian tables, qc_model), random schedules, 1-/2-site, "
+            "direct/iterative solvers (counters prove which ran), 1..4 roots, omega targeting, inverse=-1, StackedMpo, OFS.",
+            "lower bounds are theorems; equalities only where the measured local dimension equals the sector dimension",
+            "DESIGN.md section 3 / C08"),
     "C09": ("exploration",
             "reference-model monitor: every chain evolution scheme is run on generated models and compared with "
             "scipy expm / DOP853 on the dense vector; measured convergence order, solver differential, adaptive vs "
@@ -90,6 +98,15 @@ CHECKS = {
             "propagator arguments and non-zero shifts/offsets.",
             "dense references (dim <= 1500); P&C at unlimited bond dimension for the thermal runs",
             "DESIGN.md section 3 / C10"),
+    "C11": ("exploration",
+            "reference-model monitor over operation histories on generated trees: every TTNS/TTNO result and observable "
+            "against dense algebra (own contraction), label and isometry monitors at quiescent points, metamorphic "
+            "child-order monitor (same state on a child-permuted twin tree)",
+            "All tree kinds incl. random trees with multi-set and dummy nodes; add/scale/apply (full and partial operators)/"
+            "canonicalise/compress/normalize; norms, expectations, 1-/2-site and 1-/2-DoF RDMs, entropies, mutual "
+            "information, bond spectra; from_mps; auxiliary-space operators.",
+            "prod(d) <= 600; dense references in generation order",
+            "DESIGN.md section 3 / C11"),
     "C13": ("exploration",
             "alias monitor: fingerprints (todense*coeff) of ALL live objects are recorded before and re-computed after "
             "every public call of a generated history; second phase mutates one object in place and observes the others; "
